@@ -184,10 +184,12 @@ theorem effTopic_ne_nil (t : Str) : effTopic t ≠ [] ∧ (t ≠ [] → effTopic
 /-- **forwarder_end_to_end**: a message published through the Publisher to `topic` and consumed by the Forwarder is
     published to exactly `topic` with uuid, payload and metadata intact, and the enveloped message is acked iff the
     destination accepted.  `enc`/`dec` stand for `json.Marshal`/`json.Unmarshal` on the envelope struct; that
-    decoding inverts encoding (`hrt`) is the one fact about `encoding/json` the statement rests on (tested by the
-    harness on every run, not proved). -/
-theorem forwarder_end_to_end (enc : Envelope → Str) (dec : Str → Parsed) (hrt : ∀ e, dec (enc e) = .env e)
-    (cfg topic : Str) (m : Msg) (ack : Bool) (dest : POut) (ht : topic ≠ []) :
+    decoding inverts encoding on envelopes whose strings are valid UTF-8 (`hrt`) is the one fact about
+    `encoding/json` the statement rests on (tested by the harness on every run, not proved).  Scope: topic, uuid
+    and metadata are valid UTF-8 (`hu`; payload bytes are arbitrary) – JSON is the wire contract of the Forwarder. -/
+theorem forwarder_end_to_end (enc : Envelope → Str) (dec : Str → Parsed)
+    (hrt : ∀ e, e.utf8 = true → dec (enc e) = .env e)
+    (cfg topic : Str) (m : Msg) (ack : Bool) (dest : POut) (ht : topic ≠ []) (hu : (wrap topic m).utf8 = true) :
     ∃ e, (fwdPublish cfg topic [m] .ok).calls = [(effTopic cfg, [e])] ∧
       (fwdPublish cfg topic [m] .ok).err = false ∧
       (forwarder ack (dec (enc e)) dest).pubs = [(topic, [m])] ∧
@@ -196,7 +198,7 @@ theorem forwarder_end_to_end (enc : Envelope → Str) (dec : Str → Parsed) (hr
   · simpa using (fwdPublish_once cfg topic [m] .ok ht).1
   · exact (fwdPublish_once cfg topic [m] .ok ht).2.mpr rfl
   · have hv : (dec (enc (wrap topic m))).valid = some (wrap topic m) := by
-      rw [hrt, valid_iff]; exact ⟨rfl, ht⟩
+      rw [hrt _ hu, valid_iff]; exact ⟨rfl, ht⟩
     have := forwarder_relays ack _ _ dest hv
     simpa [wrap] using this
 
@@ -306,6 +308,8 @@ example : (forwarder false (.env e1) .ok).pubs = [(ascii "orders", [⟨ascii "u1
 example : (Parsed.env { e1 with dest := [] }).valid = none ∧ Parsed.bad.valid = none := by decide
 example : (forwarder true .bad (.fail [])).settle = .ack ∧ (forwarder false .bad .ok).settle = .nack := by decide
 example : (FanInCfg.mk [ascii "a", ascii "b"] (ascii "t")).valid = true ∧ (FanInCfg.mk [ascii "a", ascii "t"] (ascii "t")).valid = false := by decide
+example : (wrap (ascii "orders") m1).utf8 = true ∧ validUtf8 [0xE2, 0x82, 0xAC] = true ∧ validUtf8 [0xFF] = false ∧
+    validUtf8 [0xED, 0xA0, 0x80] = false ∧ validUtf8 [0xC0, 0x80] = false := by decide
 example : (fwdPublish [] (ascii "orders") [m1] .ok).calls = [(ascii "forwarder_topic", [wrap (ascii "orders") m1])] := by decide
 example : accepted (passthrough (ascii "t")) [(m1, .ok), (m1, .fail []), (m1, .ok)] = [(ascii "t", [m1]), (ascii "t", [m1])] := by decide
 
